@@ -167,6 +167,12 @@ public:
     void known_hit(const std::string& sig) { if (!in_shrink) known_hits_[sig]++; }
     void dump(const char* path) const;   // JSON + binary hash file path+".hashes"
     uint64_t evaluations() const { return evaluations_; }
+    // fingerprint of what the current case computed (decoded-case hash, labels, non-trivial flag, sample text)
+    uint64_t case_digest() const {
+        uint64_t h = hash_mix(case_hash_, case_nontrivial_ ? 1 : 0);
+        for (const std::string& l : case_labels_) h = hash_mix(h, hash_str(l));
+        return hash_mix(h, hash_str(case_sample_));
+    }
     size_t distinct() const { return hashes_.size(); }
 
 private:
